@@ -173,8 +173,37 @@ const miniXMLDeclaredInput = "<?xml version=\"1.0\" encoding=\"ISO-8859-1\"?>\n<
 const miniCSVBadLinesInput = "id,name,qty\n1,alpha,10\n2,be\"ta,20\n3,gamma,30\n4,\"del\"ta,40\n5,eps,50\n6,\"open,60\n"
 const miniCSV2BadLinesInput = "H,a,1\nD,x\nH,b\"b,2\nD,y\nH,c,3\nD,\"z\"z\nH,d,4\n"
 
+// an optional multi-line preamble (header .. footer, or a fixed number of rows) in front of single-line records that
+// would match the preamble's lines too
+const miniFixed2Preamble = `{
+ "parser_settings": {"version": "omni.2.1", "file_format_type": "fixedlength2"},
+ "file_declaration": {"envelopes": [
+   {"name": "PRE", "header": "^BEGIN", "footer": "^END", "min": 0, "max": 1, "columns": [{"name": "m", "start_pos": 1, "length": 5, "line_pattern": "^meta"}]},
+   {"name": "R", "is_target": true, "columns": [{"name": "id", "start_pos": 1, "length": 5}, {"name": "qty", "start_pos": 6, "length": 4}]}]},
+ "transform_declarations": {"FINAL_OUTPUT": {"object": {"id": {"xpath": "id"}, "qty": {"xpath": "qty", "type": "int"}}}}
+}`
+const miniFixed2RowsPreamble = `{
+ "parser_settings": {"version": "omni.2.1", "file_format_type": "fixedlength2"},
+ "file_declaration": {"envelopes": [
+   {"name": "PRE", "rows": 4, "min": 1, "max": 1, "columns": [{"name": "m", "start_pos": 1, "length": 5, "line_index": 2}]},
+   {"name": "R", "is_target": true, "columns": [{"name": "id", "start_pos": 1, "length": 5}, {"name": "qty", "start_pos": 6, "length": 4}]}]},
+ "transform_declarations": {"FINAL_OUTPUT": {"object": {"id": {"xpath": "id"}, "qty": {"xpath": "qty", "type": "int"}}}}
+}`
+const miniFixed2PreambleInput = "BEGIN\nmeta1\nmeta2\nEND\nR00010010\nR00020020\nR0003 bad\nR00040040\n"
+const miniCSV2Preamble = `{
+ "parser_settings": {"version": "omni.2.1", "file_format_type": "csv2"},
+ "file_declaration": {"delimiter": ",", "records": [
+   {"name": "PRE", "header": "^BEGIN", "footer": "^END", "min": 0, "max": 1, "columns": [{"name": "m", "index": 1, "line_pattern": "^meta"}]},
+   {"name": "R", "is_target": true, "columns": [{"name": "id", "index": 1}, {"name": "qty", "index": 2}]}]},
+ "transform_declarations": {"FINAL_OUTPUT": {"object": {"id": {"xpath": "id"}, "qty": {"xpath": "qty", "type": "int"}}}}
+}`
+const miniCSV2PreambleInput = "BEGIN,x\nmeta1,y\nmeta2\nEND\nr1,10\nr2,20\nr3,bad\nr4,40\n"
+
 func miniSamples() []Sample {
 	return []Sample{
+		{"mini/fixedlength2-preamble", "fixedlength2", []byte(miniFixed2Preamble), []byte(miniFixed2PreambleInput)},
+		{"mini/fixedlength2-rows-preamble", "fixedlength2", []byte(miniFixed2RowsPreamble), []byte(miniFixed2PreambleInput)},
+		{"mini/csv2-preamble", "csv2", []byte(miniCSV2Preamble), []byte(miniCSV2PreambleInput)},
 		{"mini/csv-rejected-lines", "csv", []byte(miniCSV), []byte(miniCSVBadLinesInput)},
 		{"mini/csv2-rejected-lines", "csv2", []byte(miniCSV2), []byte(miniCSV2BadLinesInput)},
 		{"mini/xml-declared-latin1", "xml", []byte(miniXML), []byte(miniXMLDeclaredInput)},
